@@ -1496,6 +1496,56 @@ func boxValues() []any {
 		"", "a", "b", []any{int64(1), int64(2)}, map[string]any{"a": int64(1)}}
 }
 
+// cpathCase: a plan whose get/getall/set/setall take a path COMPUTED from the data by [root …]/[at …], a root
+// on which that path is evaluated more than once with different values (per element of each, per step), and
+// a second root of the same shape with other keys and values for the reused *Plan.
+func (g *gen) cpathCase() (plan []any, root, root2 map[string]any) {
+	keys := func() []string {
+		ks := append([]string{}, keyPool...)
+		for i := len(ks) - 1; i > 0; i-- {
+			j := g.r.Intn(i + 1)
+			ks[i], ks[j] = ks[j], ks[i]
+		}
+		return ks
+	}
+	mkRoot := func() map[string]any {
+		ks := keys()
+		n := 2 + g.r.Intn(3)
+		l := make([]any, 0, n)
+		for i := 0; i < n; i++ {
+			l = append(l, map[string]any{"k": ks[i], "v": g.scalar(), "w": map[string]any{ks[i]: g.intLit(), ks[i+1]: g.strLit()}})
+		}
+		src := map[string]any{"l": l, "key": ks[n], "key2": ks[n+1], "val": g.scalar(), "val2": g.numLit(),
+			"m": map[string]any{ks[0]: g.intLit(), ks[1]: g.strLit(), ks[n]: g.numLit(), ks[n+1]: g.scalar()}}
+		return map[string]any{"src": src}
+	}
+	root, root2 = mkRoot(), mkRoot()
+	setf := g.pick([]string{"set", "set", "setall"})
+	getf := g.pick([]string{"get", "get", "getall"})
+	mk := g.pick([]string{"root", "at"})
+	switch g.r.Intn(7) {
+	case 0: // set with a computed path once per element
+		plan = []any{[]any{"each", "$.src.l", []any{setf, []any{"root", "asm", "@.src.k"}, "@.src.v"}}}
+	case 1: // local target, collected by each
+		plan = []any{[]any{"set", "$.asm.r0", []any{"each", "$.src.l", []any{setf, []any{"at", "asm", "@.src.k"}, "@.src.v"}}}}
+	case 2: // get with a computed path once per element (the element's own member named by its k)
+		plan = []any{[]any{"set", "$.asm.r0", []any{"each", "$.src.l", []any{"set", "@.asm", []any{getf, []any{"at", "src", "w", "@.src.k"}}}}}}
+	case 3: // get from the root with a computed path once per element
+		plan = []any{[]any{"set", "$.asm.r0", []any{"each", "$.src.l", []any{"set", "@.asm", []any{getf, []any{"root", "src", "m", "@.src.k"}}}}}}
+	case 4: // straight line: the path depends on the root (a reused plan meets another root)
+		plan = []any{[]any{setf, []any{"root", "asm", "$.src.key"}, "$.src.val"}, []any{setf, []any{"root", "asm", "$.src.key2"}, "$.src.val2"}}
+	case 5:
+		plan = []any{[]any{"set", "$.asm.r0", []any{getf, []any{mk, "src", "m", "$.src.key"}}},
+			[]any{"set", "$.asm.r1", []any{getf, []any{"root", "src", "m", "$.src.key2"}, "$"}}}
+	default: // get with explicit data and a computed path, per element, then a computed set
+		plan = []any{[]any{"each", "$.src.l", []any{"set", []any{"root", "asm", "@.src.k"}, []any{getf, []any{"at", "w", "@.src.k"}, "@.src"}}}}
+	}
+	if g.pct(30) {
+		plan = append(plan, []any{"set", "$.asm.n", []any{"size", "$.src.l"}})
+	}
+	return
+}
+
 func fmtPlan(p any) string { return show(render(p)) }
 
 func sortStrings(xs []string) { sort.Strings(xs) }
